@@ -235,6 +235,10 @@ func (g *srcGen) list(depth int) string {
 
 func (g *srcGen) stmt(depth int) string {
 	r := g.r
+	if r.Chance(2) {
+		// a clause of some other construct, complete with its own body and end, where a statement belongs
+		return g.act(r.Pick([]string{"catch", "catch e", "else", "else if a", "content"})) + genText(r) + r.Pick([]string{"", g.act("end")})
+	}
 	k := r.Intn(16)
 	if depth <= 0 && k >= 6 {
 		k = r.Intn(6)
